@@ -1,8 +1,8 @@
 SPECIFICATION ASpec
 CONSTANTS
   Sym = {97, 10, 32, 9}
-  MaxLen = 4
-  WithFailAt = FALSE
+  MaxLen = 3
+  WithFailAt = TRUE
   MaxOps = 99
 VIEW AView
 INVARIANTS ATypeOK PosLaws ModelExplained SavedValid EqLaw
